@@ -307,6 +307,8 @@ class Evaluator:
             right = self.ev(c, env)
             if right is UNK:
                 return UNK
+            if (left is NONNULL or right is NONNULL) and not (isinstance(op, (ast.Is, ast.IsNot)) and (left is None or right is None)):
+                return UNK   # "some object that is not None": only its None-ness is known, never its value
             try:
                 if isinstance(op, ast.Eq):
                     ok = left == right
